@@ -307,3 +307,39 @@ def check_eager_evaluate(rep, model: Model, rule: str) -> None:
                               witness_class="skipping-path")
             else:
                 rep.unknown(rule, construct, fi.where, f"no recognisable evaluation of self.{fld}")
+
+
+VISIT_METHODS = {"_evaluate", "_numeric_partial", "_compute_numeric_partials"}
+
+
+def check_must_visit(rep, model: Model, rule: str) -> None:
+    """C07.must-visit: every normal exit of a forward/reverse numeric rule has, for every
+    child field, evaluated or recursively visited that child unconditionally."""
+    classes = model.concrete_expression_classes()
+    for mname in ("_numeric_partial", "_compute_numeric_partials"):
+        for fi, users in sorted(distinct_methods(model, mname, classes).items(), key=lambda kv: kv[0].qualname):
+            owner = users[0]
+            flds = class_fields(model, owner)
+            if not flds.children:
+                continue
+            cc = ChildCalls(model, fi, VISIT_METHODS, owner)
+            visited = cc.fields_always_visited()
+            for fld in flds.children:
+                construct = f"{fi.qualname}[{fld}]"
+                lazy = [ln for (f, ln) in cc.lazy if f == fld]
+                if fld in visited:
+                    rep.ok(rule, construct, fi.where,
+                           f"every normal exit has evaluated/visited self.{fld} (classes: "
+                           f"{', '.join(c.name for c in users)})")
+                elif fld in cc.hits:
+                    ln = cc.skipping_exit(fld)
+                    rep.violation(rule, construct, f"{fi.module.rel}:{ln}",
+                                  f"a normal exit (line {ln}) of {fi.qualname} is reachable without evaluating or "
+                                  f"visiting self.{fld}: an undefined sub-expression there goes unnoticed",
+                                  witness_class="skipping-path")
+                elif lazy:
+                    rep.violation(rule, construct, f"{fi.module.rel}:{lazy[0]}",
+                                  f"self.{fld} is only visited inside a lazily consumed generator",
+                                  witness_class="lazy-generator")
+                else:
+                    rep.unknown(rule, construct, fi.where, f"no recognisable visit of self.{fld}")
